@@ -158,6 +158,12 @@ def run(ctx, rep):
             ok = ok and sum(1 for u in ul if u.id in reach) == 1 and all(r.id in reach for r in f.returns())
         # exactly one unlock on every path: the two unlock sites are under complementary guards
         rep.check(ok, 'R-C13-6', '%s releases the mutex on every path' % w, f.file, '%d unlock sites' % len(ul), function=w, construct='wrapper summary')
+    wt = P.fn('io_writer_thread')
+    rep.analysed(wt)
+    stp = list(wt.calls('io_writer_step'))
+    lst = [i for i in wt.all_insts() if i.op == 'store' and wt.expr(i.ops[1]) == '&latest_state' and wt.loop_of(i.block) is not None]
+    rep.rule('R-C13-6w', 'the error state a writer reports is the state of the task it just ran (mono and thread modes count each failure once)', 1)
+    rep.check(bool(stp) and bool(lst) and not any(c.id in wt.reach([c], stop={x.id for x in lst}) for c in stp), 'R-C13-6w', 'io_writer_thread: latest_state reassigned on every iteration', wt.file, '', function='io_writer_thread', construct='stale writer state')
     slots = P.slots()
     for slot in ('g:io_data_read', 'g:io_parity_write'):
         impls = sorted(slots.get(slot, ()))
